@@ -3,7 +3,10 @@
 //! compares the projection of the real state with the model's prediction, and prints one JSON
 //! line per disagreement plus a summary line.
 
+mod blocks;
 mod checks;
+mod container;
+mod tarx;
 mod cols;
 mod expect;
 mod fields;
@@ -11,6 +14,7 @@ mod gen;
 mod layout;
 mod real;
 mod robust;
+mod small;
 mod stream;
 mod streamchk;
 mod util;
@@ -326,6 +330,19 @@ fn main() {
 	match a.cmd.as_str() {
 		"replay-beh" => cmd_replay_beh(&a),
 		"fields" => fields::cmd_fields(&a),
+		"version20" => small::cmd_version20(&a),
+		"version09" => small::cmd_version09(&a),
+		"rollbacks" => small::cmd_rollbacks(&a),
+		"sjis" => small::cmd_sjis(&a),
+		"dump-slpp" => {
+			let b = std::fs::read(a.req("file")).unwrap();
+			let g = real::read_slp(&b, false, true).ok().unwrap();
+			let arch = real::write_slpp(g, real::Comp::None).ok().unwrap();
+			std::fs::write(a.req("out"), &arch).unwrap();
+		}
+		"blocks" => blocks::cmd_blocks(&a),
+		"ubjson" => container::cmd_ubjson(&a),
+		"slpp" => container::cmd_slpp(&a),
 		"edges" => robust::cmd_edges(&a),
 		"newer" => cmd_newer(&a),
 		"fuzz" => robust::cmd_fuzz(&a),
